@@ -187,7 +187,15 @@ class History:
         tm = self.scn.trigger_manager
         if not tm.triggers:
             return
-        i = self.rng.randrange(len(tm.triggers))
+        n = len(tm.triggers)
+        if n >= 3 and self.rng.random() < 0.6:
+            # several at once, in any order, never the whole list (the survivors are renumbered and links retargeted)
+            ids = self.rng.sample(range(n), self.rng.randint(2, min(4, n - 1)))
+            from AoE2ScenarioParser.objects.support.trigger_select import TriggerSelect as TS
+            tm.remove_triggers([TS.index(i) for i in ids] if self.rng.random() < 0.5 else ids)
+            self._rec("remove_triggers", ids)
+            return
+        i = self.rng.randrange(n)
         tm.remove_trigger(i)
         self._rec("remove_trigger", i)
 
